@@ -64,11 +64,17 @@ class Scheduler:
     def me(self):
         return self.local.idx
 
-    def wait_turn(self, me):
+    def wait_turn(self, me, in_trace=False):
+        """in_trace: called from the per-instruction trace callback.  No exception is ever raised out of a trace callback on an
+        abort (an exception injected between two arbitrary bytecodes, in several threads at once, crashed the 3.12 interpreter
+        about once in five runs of a failing variant): after an abort the schedule is void, every thread simply runs on
+        unscheduled until its operations are done, and the run is reported through sched.error."""
         with self.cv:
             waited = 0
             while self.turn != me:
                 if self.abort:
+                    if in_trace:
+                        return
                     raise SchedulerError('aborted')
                 if not self.cv.wait(timeout=0.5):
                     waited += 1
@@ -76,6 +82,8 @@ class Scheduler:
                         self.abort = True
                         self.error = 'thread %d waited 10 s for its turn (deadlock?)' % me
                         self.cv.notify_all()
+                        if in_trace:
+                            return
                         raise SchedulerError(self.error)
 
     def give_turn(self, to):
@@ -85,6 +93,8 @@ class Scheduler:
 
     def tick(self):
         """called before every bytecode instruction executed inside cacheutils.py by the thread holding the turn"""
+        if self.abort and self.step <= MAX_STEPS:
+            return          # schedule void (see wait_turn): run on freely
         self.step += 1
         if self.step > MAX_STEPS:
             # a normal execution needs a few hundred steps: this is an endless loop over a corrupted structure
@@ -102,7 +112,7 @@ class Scheduler:
             return
         self.switches += 1
         self.give_turn(target)
-        self.wait_turn(me)
+        self.wait_turn(me, in_trace=True)
 
     def on_release(self):
         """called when the thread holding the turn releases the cache's lock completely"""
@@ -194,6 +204,7 @@ def prime_opcode_tracing():
     """CPython 3.12 only turns per-instruction events on at a sys.settrace() call made *after* some frame has asked for
     f_trace_opcodes; do that once per process so that the very first traced thread is already traced per opcode."""
     if _PRIMED[0]:
+        _park_tracing_thread()      # (a forked worker inherits the flag but not the thread)
         return
 
     def _t(frame, event, arg):
@@ -207,6 +218,31 @@ def prime_opcode_tracing():
     _dummy()
     sys.settrace(old)
     _PRIMED[0] = True
+    _park_tracing_thread()
+
+
+_PARK = {}
+
+
+def _park_tracing_thread():
+    """Keep one (idle) thread with a trace function alive for the life of the process.  CPython 3.12 re-instruments every code
+    object whenever the number of tracing threads goes from 0 to 1 or back; with worker threads switching tracing on and off
+    for every schedule that happened tens of thousands of times per run while other threads were suspended in the middle of
+    instrumented frames, and about one run in five of a (seeded, lock-free) variant of cacheutils died with SIGSEGV inside the
+    interpreter.  With the parked thread the count never returns to 0, so the instrumentation stays as it is."""
+    pid = os.getpid()
+    if _PARK.get('pid') == pid:
+        return
+    ready = threading.Event()
+
+    def park():
+        sys.settrace(lambda frame, event, arg: None)
+        ready.set()
+        threading.Event().wait()        # forever (daemon thread)
+    th = threading.Thread(target=park, daemon=True, name='c03-tracing-keepalive')
+    th.start()
+    ready.wait(5)
+    _PARK['pid'] = pid
 
 
 # ---------------------------------------------------------------------------
